@@ -61,7 +61,14 @@ def handleC12 (op : String) (args : Array Json) : Option Json := do
     let targets ← parseNatList (← (j.getObjVal? "targets").toOption)
     let next ← jNat? (← (j.getObjVal? "next").toOption)
     let ops ← (← jArr? (← (j.getObjVal? "ops").toOption)).toList.mapM parseAssocOp
-    let s0 : St := { links := links, targets := targets, next := next, mem := fun _ => [], memFk := fun _ => 0 }
+    -- optional "mem": [[owner, [keys]] …] = in-memory fields of operated records loaded with Preload
+    let memJ := ((j.getObjVal? "mem").toOption.bind jArr?).getD #[]
+    let memL ← memJ.toList.mapM fun e => do
+      let a ← jArr? e
+      some (← jNat? (arg a 0), ← parseNatList (arg a 1))
+    let mem0 : Nat → List Nat := fun o => ((memL.find? (·.1 == o)).map (·.2)).getD []
+    let s0 : St := { links := links, targets := targets, next := next, mem := mem0,
+                     memFk := fun o => if cls = .bt then (mem0 o).headD 0 else 0 }
     some (Json.arr (runObs ⟨cls, card1⟩ os ops s0).toArray)
   | "assoc.ck" =>
     -- ["assoc.ck", linked tuples, named tuples] -> records created by Append(linked), in-memory field after Delete(named)
